@@ -46,6 +46,14 @@ Next ==
              LET d == Mk(1, c.ds)  r == AddObservation(d, cl, v, u, of) IN
              /\ Assert(Atomic(d, r) /\ NotifiedOnce(r), "C11 violated by the specification (add)")
              /\ c' = [kind |-> "add", ds |-> c.ds, cls |-> cl, v |-> v, u |-> u.kind, optfail |-> of, exp |-> PR(r)]
+        (* the builder: Track::new, then the observations in order; the first failing one fails the build *)
+        \/ \E c1 \in Classes, c2 \in Classes, u1 \in {"ok", "ready"}, u2 \in {"none", "ok", "fail"}, f \in {"none", "opt1", "opt2"} :
+             LET t0 == NewTrack(1)
+                 r1 == AddObservation(t0, c1, 1, [kind |-> u1], f = "opt1")
+                 r2 == IF r1.ok THEN AddObservation(r1.t, c2, 2, [kind |-> u2], f = "opt2") ELSE r1 IN
+             /\ c.ds = [cc \in Classes |-> 0]
+             /\ c' = [kind |-> "build", ds |-> c.ds, obs |-> <<[cls |-> c1, v |-> 1, u |-> u1], [cls |-> c2, v |-> 2, u |-> u2]>>,
+                      fault |-> f, exp |-> [ok |-> r2.ok, notes |-> {0}, t |-> PT(IF r2.ok THEN r2.t ELSE t0)]]
   \/ /\ stage = 1 /\ Mode = "merge2" /\ stage' = 2
      /\ \E s1 \in SmallShapes, cl1 \in SmallLists, h1 \in BOOLEAN, f1 \in SmallFaults,
            s2 \in SmallShapes, cl2 \in SmallLists, h2 \in BOOLEAN, f2 \in SmallFaults :
